@@ -523,6 +523,8 @@ def run_buffers(o, layout):
         ('lazy', lambda: ak.from_buffers(form, length, dict((k, bytearray(v)) for k, v in raw.items()), partition_start=pstart,
                                          key_format=kf, lazy=True)),
     ]
+    if 'lazy' not in o:
+        variants = [v for v in variants if v[0] != 'lazy']
     for name, f in variants:
         del TRACE[:]
 
